@@ -325,6 +325,12 @@ class ProgramGen(object):
         not): about a quarter of the fresh names are an existing name of this body in ANOTHER letter case
         (i1 / I1, ds2 / Ds2 / DS2), i.e. a DIFFERENT variable, possibly of another kind or type, also across
         nested blocks"""
+        if self.names and self.r.random() < 0.15:
+            # a name whose block has ended is unknown again: using it declares ANOTHER variable (possibly of another type)
+            gone = [n for n in sorted(self.names) if self.lookup(n) is None]
+            if gone:
+                self.stats['redeclared_names'] = self.stats.get('redeclared_names', 0) + 1
+                return self.r.choice(gone)
         if self.names and self.r.random() < 0.25:
             base = self.r.choice(sorted(self.names))
             for cand in self.r.sample([base.upper(), base.capitalize(), base.lower()], 3):
@@ -496,7 +502,9 @@ class ProgramGen(object):
                     return '%s %s %s' % (v, r.choice(['==', '!=']), w2), True
                 t2 = r.choice(['integer', 'integer', 'real', 'string'])
                 a = self.expr(t2, depth + 1, sel)
-                b = self.expr(t2, depth + 1, sel)
+                # numeric comparisons also mix an integer with a real operand (either side): still boolean
+                t3 = r.choice(['integer', 'real']) if t2 != 'string' and r.random() < 0.4 else t2
+                b = self.expr(t3, depth + 1, sel)
                 ops = ['==', '!=', '<', '<=', '>', '>='] if t2 != 'string' else ['==', '!=']
                 return '%s %s %s' % (self.paren(a[0], a[1], True) if a[1] else a[0], r.choice(ops),
                                      self.paren(b[0], b[1], True) if b[1] else b[0]), True
